@@ -243,20 +243,29 @@ def _traversals(ctx, mdl):
     # tree:  svg[TA] -> g[TB] -> path#p1[TC]           expected p1: A.B.C
     #                        -> g[TD] -> line#l1         expected l1: A.B.D
     #              -> rect#r1[TE]                        expected r1: A.E
+    # siblings of the same kind with and without an own transform, in both orders (an own transform must not leak to a sibling):
+    #   g[TB] also holds path#p0 (before p1) and path#p2 (after p1), neither with a transform; g[TD] holds line#l0[TF] before l1
+    p0 = Elem('path', {'d': 'D0', 'id': 'p0'})
     p1 = Elem('path', {'d': 'D1', 'transform': 'TC', 'id': 'p1'})
+    p2 = Elem('path', {'d': 'D2', 'id': 'p2'})
+    l0 = Elem('line', {'transform': 'TF', 'id': 'l0'})
     l1 = Elem('line', {'id': 'l1'})
     r1 = Elem('rect', {'transform': 'TE', 'id': 'r1'})
-    g2 = Elem('g', {'transform': 'TD'}, [l1])
-    g1 = Elem('g', {'transform': 'TB'}, [p1, g2])
+    q1 = Elem('polygon', {'id': 'q1'})
+    g3 = Elem('g', {'transform': 'TG'}, [q1])                 # a third level of groups: svg -> g[TB] -> g[TD] -> g[TG] -> polygon#q1
+    g2 = Elem('g', {'transform': 'TD'}, [l0, l1, g3])
+    g1 = Elem('g', {'transform': 'TB'}, [p0, p1, p2, g2])
     root = Elem('svg', {'transform': 'TA'}, [g1, r1])
-    M = {t: _sym_matrix(t) for t in ('TA', 'TB', 'TC', 'TD', 'TE')}
+    M = {t: _sym_matrix(t) for t in ('TA', 'TB', 'TC', 'TD', 'TE', 'TF', 'TG')}
 
     def ptr(it, a, k):
         s = a[0]
         if not s:
             return ident()
         return M[s]
-    expect = {'p1': M['TA'].dot(M['TB']).dot(M['TC']), 'l1': M['TA'].dot(M['TB']).dot(M['TD']), 'r1': M['TA'].dot(M['TE'])}
+    expect = {'p1': M['TA'].dot(M['TB']).dot(M['TC']), 'l1': M['TA'].dot(M['TB']).dot(M['TD']), 'r1': M['TA'].dot(M['TE']),
+              'p0': M['TA'].dot(M['TB']), 'p2': M['TA'].dot(M['TB']), 'l0': M['TA'].dot(M['TB']).dot(M['TD']).dot(M['TF']),
+              'q1': M['TA'].dot(M['TB']).dot(M['TD']).dot(M['TG'])}
     fdoc = mdl.func('document.flattened_paths')
 
     def th_doc(it):
@@ -297,6 +306,43 @@ def _traversals(ctx, mdl):
                 probs.append('%s: path.transform records another matrix' % k_)
         return not probs, '; '.join(probs)
     Obligation(ctx, 'R17.3').run(fdoc, 'Document traversal on a 3-level tree', th_doc, judge)
+
+    # the same tree queried through flattened_paths_from_group: exactly the leaves below the requested group (all levels when
+    # recursive, its own leaves otherwise), each in the ROOT frame
+    fgrp = mdl.func('document.flattened_paths_from_group')
+    for qname, q, rec, want in (('g[TB]', g1, True, {'p0', 'p1', 'p2', 'l0', 'l1', 'q1'}), ('g[TB]', g1, False, {'p0', 'p1', 'p2'}),
+                                ('g[TD]', g2, True, {'l0', 'l1', 'q1'}), ('g[TG]', g3, True, {'q1'}), ('the root', root, True, set(expect))):
+        def th_grp(it, q=q, rec=rec):
+            cache = {}
+            applied = []
+            it.call_hooks['parser.parse_transform'] = ptr
+            it.call_hooks['parser.parse_path'] = lambda it2, a, k: Opaque('parsed')
+            for c in ('path2pathd', 'ellipse2pathd', 'line2pathd', 'polyline2pathd', 'polygon2pathd', 'rect2pathd'):
+                it.call_hooks['svg_to_paths.' + c] = lambda it2, a, k: 'D'
+
+            def tf(it2, a, k):
+                o = Opaque('transformed')
+                applied.append((a[1], o))
+                return o
+            it.call_hooks['path.transform'] = tf
+            res = it.call(it.closure_of('document.flattened_paths_from_group'), [_wrap(it, q, cache), _wrap(it, root, cache)], {'recursive': rec})
+            out = {}
+            for p in res:
+                el = p.attrs.get('element')
+                m = [t for t, o in applied if o is p]
+                out[el.attrs['__elem__'].attrib.get('id')] = m[0] if m else None
+            return out
+
+        def judge_grp(v, want=want):
+            probs = []
+            if set(v) != want:
+                probs.append('returns %s, expected %s' % (sorted(v), sorted(want)))
+            for k_ in set(v) & want:
+                if not (isinstance(v[k_], Arr) and v[k_].equals(expect[k_])):
+                    probs.append('%s is not expressed in the root frame' % k_)
+            return not probs, '; '.join(probs)
+        Obligation(ctx, 'R17.3').run(fgrp, 'flattened_paths_from_group(%s, recursive=%s)' % (qname, rec), th_grp, judge_grp,
+                                     opts={'ext_hooks': {'warnings.warn': lambda it, a, k: None}})
 
     fsax = mdl.func('svg_io_sax.SaxDocument.sax_parse')
 
